@@ -6,9 +6,12 @@ from vlib import coq_hex, coq_list
 MANIFEST = {
     "text": "Coq theorems over an executable model of RpcPackageHandler.Read/Write, the head-map codec and getty's receive loop "
             "(C13_frame_exact, C13_frame_prefix, C13_stream_any_partition for ALL frame sequences and ALL partitions into reads, "
-            "C13_read_garbage / C13_no_spin for ALL byte strings, C13_headmap_roundtrip incl. empty keys/values); the model is tied "
+            "C13_read_garbage / C13_no_spin for ALL byte strings, C13_headmap_roundtrip incl. empty keys/values, C13_complete_frame_delivered / "
+            "C13_need_only_incomplete: need-more only for incomplete input, C13_interleaving: connections sharing the handler do not influence "
+            "each other); the model is tied "
             "to the current source on every run by driving the real Read exactly as getty's handleTCPPackage does over every prefix, "
-            "every 2-cut partition of short streams, random partitions of long ones, structured and random garbage, and comparing "
+            "every 2-cut partition of short streams, random partitions of long ones (each also through getty's reusable receive buffer, delivered "
+            "objects re-inspected at the end), two interleaved connections on one handler, structured and random garbage, and comparing "
             "(message, consumed, error class) and whole delivery sequences with the model evaluated by vm_compute; the property's own "
             "statement is evaluated on the real run as a direct oracle.",
     "note": "Trusted: Coq kernel + vm_compute, no axioms; harness/frame (loop transcription of getty v1.5.0 session.handleTCPPackage, "
